@@ -64,7 +64,7 @@ private theorem applyBlock_user {e : Env} {b s : Block} (hu : e.isEmbedded b.bod
     (h : applyBlock e b = .ok s) :
     s = ⟨{ b.body with totalPlasma := (e.powPlasma b.body.difficulty + b.body.fusedPlasma) % two64,
                        basePlasma := e.basePlasma b.strip }, b.desc⟩ ∧
-    b.desc = [] ∧ e.pubKeyToAddress b.body.publicKey = b.body.address := by
+    b.desc = [] ∧ e.pubKeyToAddress b.body.publicKey = b.body.address ∧ b.body.hash = abComputeHash e.H b := by
   unfold applyBlock at h
   split at h; · cases h
   split at h; · cases h
@@ -92,9 +92,13 @@ private theorem applyBlock_user {e : Env} {b s : Block} (hu : e.isEmbedded b.bod
   simp only [hu1] at h3
   repeat' split at h3
   all_goals first | contradiction | cases h3 | skip
-  rename_i hpk hd
-  rw [e1] at hpk hd
-  exact ⟨by simpa using hd, by simpa using hpk⟩
+  rename_i hz hhash _ _ _ _ hpk hd
+  rw [e1] at hpk hd hhash
+  refine ⟨by simpa using hd, by simpa using hpk, ?_⟩
+  have hh : ∀ t p, abComputeHash e.H ⟨{ b.body with totalPlasma := t, basePlasma := p }, b.desc⟩ = abComputeHash e.H b :=
+    fun _ _ => rfl
+  rw [hh] at hhash
+  exact (by simpa using hhash : abComputeHash e.H b = b.body.hash).symm
 
 /-- T2 for user blocks, `_partial`: two delivered variants with equal covered fields (what `C13.equal_hash_equal_covered`
     concludes from equal hashes) that the node accepts in the same state are stored with every field equal EXCEPT the residue
@@ -110,8 +114,8 @@ theorem stored_is_function_of_covered_fields_partial (e : Env)
   have hb := strip_body hcov
   have haddr : b1.body.address = b2.body.address := by
     have := congrArg ABody.address hb; simpa [ABody.strip] using this
-  obtain ⟨r1, d1, k1⟩ := applyBlock_user hu a1
-  obtain ⟨r2, d2, k2⟩ := applyBlock_user (haddr ▸ hu) a2
+  obtain ⟨r1, d1, k1, -⟩ := applyBlock_user hu a1
+  obtain ⟨r2, d2, k2, -⟩ := applyBlock_user (haddr ▸ hu) a2
   have hkey : b1.body.publicKey = b2.body.publicKey := hpk _ _ (by rw [k1, k2, haddr])
   subst r1; subst r2
   obtain ⟨x, dx⟩ := b1; obtain ⟨y, dy⟩ := b2
@@ -121,6 +125,29 @@ theorem stored_is_function_of_covered_fields_partial (e : Env)
   cases x; cases y
   simp only [ABody.strip, ABody.mk.injEq] at hb
   simp_all [eraseResidue]
+
+/-- The clause as the property states it: two USER blocks with the SAME HASH that one node accepts in one state are stored
+    identically except the residue (`ChangesHash` = F9, `Signature` = key holder). Equal hashes give equal covered fields by
+    `C13.equal_hash_equal_covered` (hash without collision on the inputs that arise, Go widths, amounts ≥ 0 as the verifier
+    demands); that the `Hash` field is the computed hash is not assumed — the acceptance path checks it. -/
+theorem same_hash_accepted_user_blocks_stored_equal_partial (e : Env) (hHlen : ∀ x, (e.H x).length = Gen.HashSize)
+    (S : Bytes → Prop) (hH : InjOn e.H S)
+    (hpk : ∀ p q, e.pubKeyToAddress p = e.pubKeyToAddress q → p = q)
+    (b1 b2 s1 s2 : Block) (hu : e.isEmbedded b1.body.address = false) (hu2 : e.isEmbedded b2.body.address = false)
+    (i1 : ∀ x ∈ b1.hashInputs e.H, S x) (i2 : ∀ x ∈ b2.hashInputs e.H, S x)
+    (w1 : b1.body.WF ∧ 0 ≤ b1.body.amount) (w2 : b2.body.WF ∧ 0 ≤ b2.body.amount)
+    (hh : b1.body.hash = b2.body.hash)
+    (a1 : applyBlock e b1 = .ok s1) (a2 : applyBlock e b2 = .ok s2) :
+    eraseResidue s1 = eraseResidue s2 := by
+  obtain ⟨_, d1, _, c1⟩ := applyBlock_user hu a1
+  obtain ⟨_, d2, _, c2⟩ := applyBlock_user hu2 a2
+  have hcov : b1.strip = b2.strip := by
+    obtain ⟨x, dx⟩ := b1; obtain ⟨y, dy⟩ := b2
+    simp only at d1 d2; subst d1; subst d2
+    exact strip_eq_of_hash_eq e.H hHlen S hH _ _ i1 i2
+      (by simp [Block.DeepWF, DeepWFList]; exact w1) (by simp [Block.DeepWF, DeepWFList]; exact w2)
+      (by simp [Block.Consistent, ConsistentList]; exact c1) (by simp [Block.Consistent, ConsistentList]; exact c2) hh
+  exact stored_is_function_of_covered_fields_partial e hpk b1 b2 s1 s2 hcov hu a1 a2
 
 /-- non-vacuity and negative witness in one: a toy node (constant hash, every signature verifies, one address) accepts two
     variants of one block that differ only in `ChangesHash` and stores them differently (F9) -/
@@ -180,8 +207,8 @@ theorem uncovered_field_alterations_refused_or_normalised (e : Env)
     have haddr : (alter b u).body.address = b.body.address := by cases u <;> rfl
     refine ⟨stored_is_function_of_covered_fields_partial e hpk _ _ _ _ hcov (haddr ▸ hu) a' a, ?_⟩
     intro hres
-    obtain ⟨r1, d1, k1⟩ := applyBlock_user hu a
-    obtain ⟨r2, d2, k2⟩ := applyBlock_user (haddr ▸ hu) a'
+    obtain ⟨r1, d1, k1, -⟩ := applyBlock_user hu a
+    obtain ⟨r2, d2, k2, -⟩ := applyBlock_user (haddr ▸ hu) a'
     have hkey : (alter b u).body.publicKey = b.body.publicKey := hpk _ _ (by rw [k1, k2, haddr])
     subst r1; subst r2
     rw [hcov]
